@@ -185,7 +185,8 @@ type Machine struct {
 	errCount     int
 	allocs       []allocRec
 	access       map[raceKey]*accessRec
-	raceDetect   bool
+	raceDetect    bool
+	noAdvanceNext bool
 }
 
 func (m *Machine) end(kind endKind, format string, args ...interface{}) {
